@@ -89,3 +89,11 @@ Theorem C07_wma_drift_refuted :
     | _ => False
     end.
 Proof. eexists. split; [reflexivity|]. vm_compute. split; reflexivity. Qed.
+
+(** (5) integer counters kept by indicators: AwesomeOscillator's 8-bit saturating peak counters are unobservable - an instance
+    with unbounded counters returns the same results on every stream, of every length, on every carrier *)
+From Yata Require Import Core.Strings Indicators.Common Indicators.Set4 Proofs.AoCounters.
+Theorem C07_awesome_oscillator_counters {pw : PW} {N : Num} (s0 : ao_st) cs :
+  (oc_peaks (ao_cfg_ s0) <= 255)%Z -> (0 <= ao_high s0 <= 255)%Z -> (0 <= ao_low s0 <= 255)%Z ->
+  run ao_next s0 cs = run ao_next_unb s0 cs.
+Proof. exact (ao_saturation_unobservable s0 cs). Qed.
